@@ -435,6 +435,9 @@ def _touch_paths(b):
     return []
 
 
+DATA_KINDS = {"set", "mkgrp", "del", "setattr", "delattr", "copy", "move", "copyinto", "replace", "touch"}
+
+
 class Session:
     """A target and the reference tree driven in lock step; `feed` may be called repeatedly."""
 
@@ -549,10 +552,10 @@ class Session:
 
     def feed(self, history):
         for op in history:
-            if op[0] in ("commit", "reopen", "discard"):
-                self.boundary(op)
-            else:
+            if op[0] in DATA_KINDS:
                 self.data_op(op)
+            else:
+                self.boundary(op)
             self.pos += 1
         return self
 
